@@ -613,6 +613,9 @@ def step (s : DState) (line : String) : DState × String :=
   | ["CK", "align", _] => (s, "ok;-")             -- harness setting (stack alignment at the call): no effect on the contract
   | ["CK", "dirty", _] => (s, "ok;-")             -- harness setting (garbage above narrow arguments)
   | "CK" :: rest => stepToks s ("K" :: rest)      -- C kernels: same contract as the Rust platform kernels
+  -- `NR <op>`: the op, but the harness does not put the register back after a panic.  The model's ops are atomic (the code's
+  -- assertions precede every mutation), so there is nothing to put back here: same transition.
+  | "NR" :: rest => stepToks s rest
   | toks => stepToks s toks
 
 partial def loop (h : IO.FS.Stream) (out : IO.FS.Stream) (s : DState) : IO Unit := do
